@@ -90,6 +90,8 @@ def handle (op : String) (inp go : Sexp) : Option Reply :=
         | .list [.atom "panic"] => "FAIL decoder panicked"
         | .list (.atom "stream-differs" :: _) =>
             "FAIL Read from a reader delivering short chunks decodes differently from Unmarshal on the same bytes"
+        | .list (.atom "member-order-differs" :: _) =>
+            "FAIL the same geometry written with members in another byte order than the header's (each member carries its own byte-order byte) decodes differently"
         | .list (.atom "hex-differs" :: _) =>
             "FAIL the hex wrapper panics, or decodes the hex text of the bytes differently from Unmarshal on the bytes (or accepts text that is not hex)"
         | .list (.atom "err" :: _) => "ok"
